@@ -255,7 +255,10 @@ type CScript struct {
 	// Adaptive: choose the next size relative to what the previous call
 	// returned (a full buffer means overflow is pending): index offsets.
 	Adaptive bool `json:"adaptive,omitempty"`
-	MaxCalls int  `json:"max_calls,omitempty"`
+	// Exact: derive the buffer sizes from the frame structure (see gen).
+	Exact     bool   `json:"exact,omitempty"`
+	ExactSeed uint64 `json:"exact_seed,omitempty"`
+	MaxCalls  int    `json:"max_calls,omitempty"`
 }
 
 // BCall is one package-level block compression call (C14).
@@ -266,6 +269,9 @@ type BCall struct {
 	HC    bool `json:"hc,omitempty"`
 	Depth int  `json:"depth,omitempty"`
 	Dst   int  `json:"dst"` // destination length; 0 = CompressBlockBound
+	// Obj: 0 = package-level function (pooled compressor); k >= 1 = the
+	// client's k-th own Compressor / CompressorHC object, reused across calls.
+	Obj int `json:"obj,omitempty"`
 }
 
 type BScript struct {
